@@ -7,6 +7,8 @@ import multiprocessing as mp
 
 VERIF = os.path.dirname(os.path.dirname(os.path.abspath(__file__)))
 REPO = os.environ.get("VERIF_REPO", "/repo")
+EVIDENCE_DIR = os.environ.get("VERIF_EVIDENCE_DIR") or os.path.join(VERIF, "evidence")
+# runs against a scratch copy of the repository (mutation testing) must not overwrite the evidence of /repo itself: they set VERIF_EVIDENCE_DIR too
 SEED = int(os.environ.get("VERIF_SEED", "0") or 0)
 NCPU = int(os.environ.get("VERIF_NCPU", "0") or 0) or min(16, os.cpu_count() or 1)
 
@@ -188,7 +190,7 @@ class Check:
                 return "known"
         for v in s.violations:
             if v["key"] == key: v["count"] = v.get("count", 1) + 1; return "dup"
-        d = os.path.join(VERIF, "evidence", "replay"); os.makedirs(d, exist_ok=True)
+        d = os.path.join(EVIDENCE_DIR, "replay"); os.makedirs(d, exist_ok=True)
         p = os.path.join(d, "%s-%s.json" % (s.pid, hashlib.sha1(str(key).encode()).hexdigest()[:10]))
         json.dump(dict(property=s.pid, what=what, key=key, replay=replay_obj), open(p, "w"), indent=1, default=str)
         s.violations.append(dict(what=what, key=key, replay=p))
@@ -232,8 +234,8 @@ class Check:
         cov.update(STATS.asdict()); cov.update(s.extra)
         ev = dict(property_id=s.pid, tier=s.tier, seed=SEED, level=s.level, coverage=cov, assumptions=s.assumptions,
                   wall_s=round(wall, 2), violations=len(s.violations))
-        os.makedirs(os.path.join(VERIF, "evidence"), exist_ok=True)
-        json.dump(ev, open(os.path.join(VERIF, "evidence", s.pid + ".json"), "w"), indent=1, default=str)
+        os.makedirs(EVIDENCE_DIR, exist_ok=True)
+        json.dump(ev, open(os.path.join(EVIDENCE_DIR, s.pid + ".json"), "w"), indent=1, default=str)
         for h in s.known_hits:
             print("KNOWN-FINDING: property=%s %s" % (s.pid, h["what"]))
         print("[%s %s] obligations %d/%d discharged, stretch %d/%d, paths %d, queries %d, solver %.1fs, wall %.1fs" % (
